@@ -96,7 +96,7 @@ def element_files(prog):
 
 def check_resume(out: Outcome, tag: str, prog, ref, ref_digest, crash_digest, resume, resume_log, calls, label):
     if resume.get("timeout"):
-        out.fail(f"{tag}-resume-hang", label)
+        out.labels.append("inconclusive:resume-timeout")  # 120 s without a result: inconclusive, not a verdict
         return
     if not resume.get("ok"):
         if "exc_type" in resume:
@@ -201,6 +201,10 @@ def explore(prog, mode, choices, kinds, out: Outcome, second_every: int, tear_li
             elif r1.get("exit") != 137:
                 if r1.get("ok"):
                     continue  # fewer events than in the counting pass (cannot happen in deterministic modes)
+                if r1.get("timeout"):
+                    out.labels.append("inconclusive:child-timeout")  # a time budget hit is never a verdict
+                    shutil.rmtree(fol, ignore_errors=True)
+                    continue
                 raise AssertionError(f"unexpected child outcome {r1}")
             log1 = read_log(lg)
             crash_digest = faultfs.folder_digest(fol)
